@@ -4,13 +4,13 @@ use std::sync::{Arc, Mutex};
 
 pub type Trace = Arc<Mutex<Vec<usize>>>;
 
-pub enum Kind { Rnd, Sticky(u64), Guided(Vec<usize>) }
+pub enum Kind { Rnd, Sticky(u64), Guided(Vec<usize>), Withhold(usize), Inject { base: Vec<usize>, k: usize, task: usize } }
 
-pub struct Sched { pub kind: Kind, pub seed: u64, rng: u64, started: bool, pub trace: Trace, pos: usize, pub diverged: Arc<Mutex<Option<usize>>> }
+pub struct Sched { pub kind: Kind, pub seed: u64, rng: u64, started: bool, pub trace: Trace, pos: usize, injected_done: bool, pub diverged: Arc<Mutex<Option<usize>>> }
 
 impl Sched {
     pub fn new(kind: Kind, seed: u64) -> Sched {
-        Sched { kind, seed, rng: 0, started: false, trace: Arc::new(Mutex::new(vec![])), pos: 0, diverged: Arc::new(Mutex::new(None)) }
+        Sched { kind, seed, rng: 0, started: false, trace: Arc::new(Mutex::new(vec![])), pos: 0, injected_done: false, diverged: Arc::new(Mutex::new(None)) }
     }
     fn next(&mut self) -> u64 { let mut x = self.rng; if x == 0 { x = 0x9E3779B97F4A7C15; } x ^= x << 13; x ^= x >> 7; x ^= x << 17; self.rng = x; x }
 }
@@ -32,6 +32,27 @@ impl Scheduler for Sched {
                 let c = cur.map(usize::from);
                 let r = (self.next() >> 11) % 100;
                 match c { Some(c) if ids.contains(&c) && !yielding && r < pct => c, _ => ids[(self.next() >> 11) as usize % ids.len()] }
+            }
+            Kind::Withhold(t) => {
+                // never run task t unless nothing else can run
+                let t = *t;
+                // (a task that yields - spinning on a flag, or parked and woken spuriously - does not count as able to run)
+                let c = cur.map(usize::from);
+                let others: Vec<usize> = ids.iter().copied().filter(|x| *x != t && !(yielding && Some(*x) == c)).collect();
+                if others.is_empty() { if ids.contains(&t) { t } else { ids[0] } } else { others[(self.next() >> 11) as usize % others.len()] }
+            }
+            Kind::Inject { base, k, task } => {
+                // follow the base schedule for k decisions, then run `task` for as long as it can run, then go on with the base order
+                let (k, task) = (*k, *task);
+                let c = cur.map(usize::from);
+                let fair: Vec<usize> = { let v: Vec<usize> = ids.iter().copied().filter(|x| !(yielding && Some(*x) == c)).collect(); if v.is_empty() { ids.clone() } else { v } };
+                if self.pos < k { let w = base.get(self.pos).copied(); self.pos += 1; match w { Some(w) if ids.contains(&w) => w, _ => usize::MAX } }
+                else if ids.contains(&task) && !self.injected_done { task }
+                else {
+                    self.injected_done = true;
+                    let w = base.get(self.pos).copied(); self.pos += 1;
+                    match w { Some(w) if fair.contains(&w) => w, _ => fair[(self.next() >> 11) as usize % fair.len()] }
+                }
             }
             Kind::Guided(list) => {
                 let want = list.get(self.pos).copied();
